@@ -201,3 +201,39 @@ def c18_argv(case, rr, argv_contains=None, category=None, got=None):
         return False
     obs = rr.get("observed") or {}
     return got is None or obs.get("code") == got
+
+
+@matcher
+def c11_kinds(case, rr, kinds=None, same_position=None, only_rules=None, pragma_adjacent_blank=None, doc_regex=None):
+    """all violations are of the stated kinds; optionally: the differing tokens differ only in
+    their (unshifted) line number / the differing failures belong to the stated rules and the
+    pragma line touches a blank line"""
+    obs = rr.get("observed") or {}
+    v = obs.get("violations") or []
+    if not v or any(x["kind"] not in kinds for x in v):
+        return False
+    if doc_regex:
+        import re
+
+        if not re.search(doc_regex, obs.get("with_pragma") or "", re.S):
+            return False
+    for x in v:
+        d = x.get("detail") or {}
+        if same_position and x["kind"] == "pragma-visible-to-parser":
+            a, b = d.get("without"), d.get("with")
+            if not (isinstance(a, list) and len(a) == 4 and a[0] == b[0] and a[2] == b[2] and a[3] == b[3] and a[1] == b[1]):
+                return False
+            if a[0] in ("para", "atx", "setext", "ulist", "olist", "block-quote", "fcode-block", "icode-block", "html-block", "tbreak", "BLANK", "li"):
+                return False  # block tokens must shift
+        if only_rules:
+            for f in (d.get("unexpected") or []) + (d.get("missing") or []):
+                if f[2] not in only_rules:
+                    return False
+    if pragma_adjacent_blank:
+        lines = (obs.get("with_pragma") or "").split("\n")
+        at = case["params"]["at"]
+        before = lines[at - 1].strip() == "" if at > 0 else False
+        after = lines[at + 1].strip() == "" if at + 1 < len(lines) else False
+        if not (before or after):
+            return False
+    return True
